@@ -123,6 +123,7 @@ def run_case(rng, ctx):
     has_dagger = kit.name != "cartesian"
     unit = kit.unit()
     ka, kb, kc = struct.key(a), struct.key(b), struct.key(c)
+    before = (repr(ka), repr(kb), repr(kc))
     ab, bc = a >> b, b >> c
     # -- composition --------------------------------------------------------
     laws.eq("then-assoc", ab >> c, a >> bc)
@@ -215,6 +216,11 @@ def run_case(rng, ctx):
                        lhs=lambda: safe_repr(lhs), rhs=lambda: safe_repr(rhs))
     # -- sums ---------------------------------------------------------------
     sums_case(rng, ctx, kit, laws, a, b, c, has_dagger)
+    # diagrams are values: no operation may have changed its operands
+    after = (repr(struct.key(a)), repr(struct.key(b)), repr(struct.key(c)))
+    ctx.expect("operands-unchanged", before == after, cls=kit.name,
+               a=lambda: safe_repr(a), b=lambda: safe_repr(b), c=lambda: safe_repr(c),
+               changed=[n for n, x, y in zip("abc", before, after) if x != y])
     if len(a) + len(b) + len(c) >= 3:
         ctx.mark(kit.name + safe_repr(a, 300) + safe_repr(b, 300) + safe_repr(c, 200))
     if ctx.index < 27:
